@@ -12,6 +12,7 @@ from ..unpack import (
     is_multi_sec,
 )
 from ..config import (
+    Config,
     MasterConfig,
 )
 from ..tract import Tract
@@ -345,6 +346,16 @@ class PLSSParser:
         self.orig_text = text
         if handed_down_config is None:
             handed_down_config = ''
+        # The tract-level parameters as locked in for this parse (which
+        # may have been passed as arguments to `PLSSDesc.parse()`) control
+        # over whatever is in the parent's config text.
+        tract_config = Config(handed_down_config)
+        tract_config.clean_qq = clean_qq
+        tract_config.qq_depth_min = qq_depth_min
+        tract_config.qq_depth_max = qq_depth_max
+        tract_config.qq_depth = qq_depth
+        tract_config.break_halves = break_halves
+        handed_down_config = tract_config.decompile_to_text()
         if parse_qq:
             handed_down_config = f"{handed_down_config},parse_qq"
         self.handed_down_config = handed_down_config
